@@ -26,7 +26,11 @@ Clauses of the property and where they are:
   `interpolate_uses_current_coordinates` (for every history of interpolations and frame/form changes the
   coordinates are interpolated from the current points; this was false before /repo commit 0a4f7b2, see
   Witness/C09.lean for the history)
-* "within centimetres on a smooth orbit" is an error bound for a function class: oracle only.
+* the Lagrange formula itself is translated from the numpy source (`lagrangeFormula`, Generated/InterpLagR.lean) and
+  proved equal to the textbook formula `lagrangeEval` in Lemmas/InterpFormula.lean (`lagrangeFormula_eq`)
+* `_prev_idx` and the linear method at nodes, the last one included ... `prevIdx_at_node`, `interp_linear_last_node`
+* "within centimetres on a smooth orbit" .. Props/C09Bound.lean (`interp_lagrange_error_bound`, `smooth_orbit_within_cm_partial`)
+* Ephem as a state machine with object identity, operation histories .. Props/C09Ephem.lean
 -/
 namespace BeyondVerif.C09
 open BeyondVerif.R BeyondVerif.NumReal
